@@ -124,8 +124,8 @@ def reify(P, wval=None):
     from odl.operator.pspace_ops import DiagonalOperator
     cls = type(P).__name__
     sp = P.domain
-    if P.domain != P.range:
-        raise Unmodelled(cls + ' domain != range')
+    if not hasattr(P.range, 'field') or isinstance(P.range, odl.set.sets.Field) or nleaves(P.domain) != nleaves(P.range):
+        raise Unmodelled(cls + ' changes the number of component arrays')
     if isinstance(P, odl.solvers.Functional):
         raise Unmodelled('functional')
     # ---- operator arithmetic
@@ -168,6 +168,12 @@ def reify(P, wval=None):
         return '(OLeaf (LConst %s))' % qval(P.constant)
     if type(P) is D.MultiplyOperator:
         return '(OLeaf (LMult %s))' % sv(P.multiplicand, sp)
+    from odl.operator.tensor_ops import MatrixOperator
+    if type(P) is MatrixOperator:
+        import scipy.sparse
+        if scipy.sparse.isspmatrix(P.matrix) or P.range.ndim != 1 or P.domain.ndim != 1:
+            raise Unmodelled('sparse / n-d MatrixOperator')
+        return '(OLeaf (LMat %s))' % C.qss(np.asarray(P.matrix, dtype=float).tolist())
     # ---- proximal classes (factory-local): identified by qualified name
     qn = type(P).__qualname__
     if not qn.startswith('proximal_') and not qn.startswith('IndicatorSimplex'):
@@ -509,6 +515,31 @@ def composition_builders(rng, space):
     return out
 
 
+def matrix_builders(rng, tier):
+    import odl
+    S = odl.solvers
+    out = []
+    X3, Y2 = odl.rn(3), odl.rn(2)
+    c = rng.choice([0.5, 2.0])
+    K = odl.MatrixOperator(c * np.array([[0, 1, 0], [0, 0, 1.]]), domain=X3, range=Y2)      # K K^T = c^2 I
+    Pm = odl.MatrixOperator(c * np.array([[0, 1, 0], [0, 0, -1], [1, 0, 0.]]))              # scaled signed permutation
+    Gm = odl.MatrixOperator(np.array([[1, 2, 0], [0, 1, -1], [0.5, 0, 1]]))                 # general square matrix
+    mk3 = lambda: rnd_el(rng, X3)
+    for nm, pf, sp in (('l1', S.proximal_l1(Y2, g=rnd_el(rng, Y2)), Y2), ('box', S.proximal_box_constraint(Y2, -1, 1), Y2),
+                       ('linf', S.proximal_linfty(Y2), Y2)):
+        out.append(('composition-nonsquare-' + nm, S.proximal_composition(pf, K, c * c)(rng.choice(DY)), mk3, X3))
+    for nm, pf in (('l1', S.proximal_l1(X3)), ('huber', S.proximal_huber(X3, 0.5)), ('ccl1', S.proximal_convex_conj_l1(X3))):
+        out.append(('composition-perm-' + nm, S.proximal_composition(pf, Pm, c * c)(rng.choice(DY)), mk3, X3))
+    out.append(('matrix-square', Gm, mk3, X3))
+    out.append(('matrix-normal', Gm.adjoint * Gm, mk3, X3))
+    out.append(('matrix-sum', S.proximal_l1(X3)(0.5) + Gm, mk3, X3))
+    out.append(('matrix-sum-right', Gm + S.proximal_l1(X3)(0.5) * Gm, mk3, X3))
+    out.append(('matrix-landweber-step', odl.IdentityOperator(X3) - 0.25 * (K.adjoint * K), mk3, X3))
+    out.append(('matrix-diag', odl.DiagonalOperator(Gm, S.proximal_l1(Y2)(1.0), Pm), lambda: rnd_el(rng, odl.ProductSpace(X3, Y2, X3)),
+                odl.ProductSpace(X3, Y2, X3)))
+    return out
+
+
 def random_tree(rng, space, pool, depth):
     """operator arithmetic through the library's own overloads / classes"""
     import odl
@@ -577,6 +608,7 @@ def all_builders(rng, tier):
             out.append((nm, P, mk, sp))
     for nm, P, mk in sep_builders(rng, tier):
         out.append((nm, P, mk, P.domain))
+    out.extend(matrix_builders(rng, tier))
     # functionals whose proximal involves L2 norms: constructed inputs, scalar rescalings only
     for sp in fs[:5]:
         for nm, f in (('L2', S.L2Norm(sp)), ('ballL2', S.IndicatorLpUnitBall(sp, 2))):
@@ -856,6 +888,12 @@ def replay_solver(seed, tier, index):
 def probes(rng, tier):
     out = []
     seed = rng.randrange(2 ** 30)
+    # fail closed: every operator the builders produce must have been reified (none silently skipped)
+    st = getattr(correspondence, 'stats', None)
+    if st is not None:
+        out.append(C.Probe(not st['unmodelled'] and not st['nonfinite'], 'reify-unmodelled',
+                           'every built operator is inside the modelled classes and gives finite values: %r' % (st,),
+                           None, st))
     for idx, (key, desc, P, x) in enumerate(probe_ops(seed, tier)):
         try:
             ok, note, observed, expected = eval_probe(P, x)
